@@ -99,7 +99,7 @@ def cases(rng, tier):
         for _ in range(rng.randint(0, 6)):
             d, kind = rand_update(rng)
             hist.append((d, kind))
-            lines.append("setpal 1 " + dtok(d))
+            lines.append("setpal 1 " + dtok(d) + (" @backend" if rng.random() < 0.3 else ""))
             lines.append("o 1 html")
         yield Case(lines, {"kind": "history-%d" % len(hist), "seq": s, "hist": hist}, nontrivial=len(hist) > 0)
 
